@@ -110,7 +110,7 @@ def extract(root, config, log=None):
             "RUSTC_WORKSPACE_WRAPPER": DRIVER,
             "CARGO_TARGET_DIR": tdir,
             "CARGO_NET_OFFLINE": "true",
-            "IV_OUT": out,
+            "IV_OUT": out + ".tmp.%d" % os.getpid(),      # (published atomically below: readers never see a half-written file)
             "IV_CRATE": "indicatif",
             "CARGO_INCREMENTAL": "0",
         })
@@ -120,7 +120,14 @@ def extract(root, config, log=None):
         t0 = time.time()
         r = subprocess.run(cmd, cwd=root, env=env, capture_output=True, text=True)
         dt = time.time() - t0
+        tmp_out = out + ".tmp.%d" % os.getpid()
+        if r.returncode == 0 and os.path.isfile(tmp_out):
+            os.replace(tmp_out, out)
         if r.returncode != 0 or not os.path.isfile(out):
+            try:
+                os.unlink(tmp_out)
+            except OSError:
+                pass
             sys.stderr.write(r.stderr[-6000:])
             raise SystemExit("BUILD-FAILED: fact extraction failed for config %s (tree does not compile?)" % config)
         with open(out) as fh:
@@ -148,8 +155,10 @@ def prune_cache(keep_hashes, max_keep=6):
     if not os.path.isdir(fdir):
         return
     ents = sorted(((os.path.getmtime(os.path.join(fdir, e)), e) for e in os.listdir(fdir)), reverse=True)
-    for i, (_, e) in enumerate(ents):
-        if i >= max_keep and e not in keep_hashes:
+    now = time.time()
+    for i, (mt, e) in enumerate(ents):
+        # (never an entry a check running in parallel may be reading: only entries that have not been touched for hours)
+        if i >= max_keep and e not in keep_hashes and now - mt > 4 * 3600:
             shutil.rmtree(os.path.join(fdir, e), ignore_errors=True)
 
 
